@@ -277,7 +277,7 @@ pub fn run(tier: Tier) -> i32 {
         let raw = run_campaign(&c, &mut rep, "C03", Some(&listings_and_closure));
         shrink_and_report(raw, &c.table, &mut rep, &c.name);
     }
-    crate::c01::run_large_families(&mut rep, &[Pipe::D, Pipe::PD, Pipe::DF]);
+    crate::c01::run_large_families(&mut rep, &[Pipe::D, Pipe::PD, Pipe::DF, Pipe::PDF, Pipe::DFDF]);
     let l = if tier.thorough() { 6 } else { 5 };
     string_differential(&mut rep, l, std_tokens(), "strings-std");
     string_differential(&mut rep, if tier.thorough() { 6 } else { 5 }, macro_tokens(), "strings-macro");
